@@ -6,6 +6,8 @@ from hypothesis import strategies as st
 from . import model as M
 
 KINDS = ["param", "leaf", "swap", "arity", "tag", "spelling"]
+# CPython hash collisions of unequal numbers: hash(-1) == hash(-2); hash(n) == hash(n mod (2**61 - 1))
+COLLIDE = {-1: -2, -2: -1, 0: 2 ** 61 - 1, 1: 2 ** 61, 2: 2 ** 61 + 1, -3: -(2 ** 61 + 2)}
 
 
 def _respell(v):
@@ -61,6 +63,8 @@ def sibling(draw, m, names=("x", "y", "z")):
         y = (t, x[1], new)
     elif kind == "leaf":
         if t == "Constant":
+            if isinstance(x[1], (int, float)) and x[1] in COLLIDE and x[1] == int(x[1]) and draw(st.integers(0, 2)) == 0:
+                return kind, M.replace(m, p, ("Constant", COLLIDE[int(x[1])])), False
             cur = float(x[1]) if isinstance(x[1], (int, float)) and abs(x[1]) < 1e300 else 7.0
             near = [math.nextafter(cur, math.inf), math.nextafter(cur, -math.inf), float(f"{cur:.15g}"), float(f"{cur:.12g}"), -cur]
             new = draw(st.sampled_from([v for v in [0, 1, -1, 2, 0.5, 3, -2, 1e-9, cur + 1] + near if v != x[1]]))
